@@ -101,6 +101,7 @@ type Scenario struct {
 	Presize   int                 `json:"presize"`
 	Dflt      int64               `json:"dflt"`
 	Cb        bool                `json:"cb"`
+	CbReenter string              `json:"cb_reenter"` // "get": the evicted callback calls Get(k) and Count() on the same cache
 	Setup     []json.RawMessage   `json:"setup"`
 	Threads   [][]json.RawMessage `json:"threads"`
 	Sched     SchedSpec           `json:"sched"`
@@ -675,12 +676,13 @@ func (c cacheAsOf) SetEvictedCallback(f cache.EvictedCallbackOf[string, any]) {
 }
 
 type cacheC[K comparable, V any] struct {
-	c     cache.CacheOf[K, V]
-	key   func(int) K
-	unkey func(K) int
-	toV   func(Val) V
-	fromV func(V) Val
-	zero  Val
+	c       cache.CacheOf[K, V]
+	key     func(int) K
+	unkey   func(K) int
+	toV     func(Val) V
+	fromV   func(V) Val
+	zero    Val
+	reenter string
 }
 
 func (c *cacheC[K, V]) callback(id int) cache.EvictedCallbackOf[K, V] {
@@ -689,6 +691,11 @@ func (c *cacheC[K, V]) callback(id int) cache.EvictedCallbackOf[K, V] {
 	}
 	return func(k K, v V) {
 		vsched.Event("cb", int64(c.unkey(k)), c.fromV(v).ev(), int64(id))
+		if c.reenter == "get" {
+			// callbacks run without internal locks held: they may call the same container
+			c.c.Get(k)
+			c.c.Count()
+		}
 	}
 }
 
@@ -844,7 +851,7 @@ func newCacheC(sc *Scenario) container {
 	if sc.Hasher != "" && sc.Hasher != "default" {
 		fail("hasher applies to MapOf_* only")
 	}
-	cc := &cacheC[string, any]{key: strKey, unkey: strUnkey, toV: anyToV, fromV: anyFromV, zero: nilVal}
+	cc := &cacheC[string, any]{key: strKey, unkey: strUnkey, toV: anyToV, fromV: anyFromV, zero: nilVal, reenter: sc.CbReenter}
 	var cb cache.EvictedCallback
 	if sc.Cb {
 		cb = cache.EvictedCallback(cc.callback(1))
@@ -862,7 +869,7 @@ func newCacheOfC[K comparable](sc *Scenario, key func(int) K, unkey func(K) int)
 	if sc.Hasher != "" && sc.Hasher != "default" {
 		fail("hasher applies to MapOf_* only")
 	}
-	cc := &cacheC[K, int64]{key: key, unkey: unkey, toV: i64ToV, fromV: i64FromV, zero: iv(0)}
+	cc := &cacheC[K, int64]{key: key, unkey: unkey, toV: i64ToV, fromV: i64FromV, zero: iv(0), reenter: sc.CbReenter}
 	var cb cache.EvictedCallbackOf[K, int64]
 	if sc.Cb {
 		cb = cc.callback(1)
